@@ -10,6 +10,7 @@ import collections
 from pathlib import Path
 import time
 import datetime
+import shutil
 
 import numpy as np
 from typing import Optional, Union, Any, List, Dict
@@ -3789,7 +3790,8 @@ class _DiskCacheWrapper:
             self.cache.close()
             if self.clear:
                 if Path(self.cache.directory).exists():
-                    import shutil
+                    # shutil is imported at module level: an import statement
+                    # fails when this runs at interpreter shutdown.
                     shutil.rmtree(self.cache.directory)
 
 
